@@ -133,6 +133,8 @@ pub fn run(a: &Args) {
 			"get_slatepack_secret_key" => json!({"token": null, "derivation_index": 0}),
 			"get_slatepack_address" => json!({"token": null, "derivation_index": 0}),
 			"cancel_tx" => json!({"token": null, "tx_id": 0, "tx_slate_id": null}),
+			"retrieve_payment_proof" => json!({"token": null, "refresh_from_node": false, "tx_id": 0, "tx_slate_id": null}),
+			"get_stored_tx" => json!({"token": null, "id": 0, "slate_id": null}),
 			"scan" => json!({"token": null, "start_height": 1, "delete_unconfirmed": true}),
 			"start_updater" => json!({"token": null, "frequency": 100000}),
 			"stop_updater" => json!(null),
@@ -187,11 +189,12 @@ pub fn run(a: &Args) {
 				let k = key.unwrap();
 				// stay with methods that keep the wallet usable for the rest of the session
 				let m2 = *rng.pick(&["accounts", "retrieve_summary_info", "retrieve_txs", "node_height", "init_send_tx", "get_top_level_directory", "cancel_tx", "retrieve_payment_proof", "get_stored_tx", "set_active_account", "create_account_path", "open_wallet"]);
+				// (open_wallet is only sent with a wrong password: a successful one would re-open the wallet masked)
 				let mut pr = params_for(m2, n_probe);
 				if m2 == "init_send_tx" && rng.bool() {
 					pr["args"]["amount"] = json!("999999999999999999"); // fails at the API level: the error reply must be encrypted too
 				}
-				if m2 == "open_wallet" && rng.bool() {
+				if m2 == "open_wallet" {
 					pr["password"] = json!("wrong password");
 				}
 				let inner2 = json!({"jsonrpc":"2.0","method": m2,"params": pr,"id": 1});
@@ -204,6 +207,9 @@ pub fn run(a: &Args) {
 					Some(v) => {
 						let inner_ok = !v["result"]["Ok"].is_null() || v["result"].is_object();
 						rep.count(&format!("authenticated:{}", if v["error"].is_null() && inner_ok { "inner-ok" } else { "inner-error" }));
+						if std::env::var("GWV_DEBUG").is_ok() {
+							eprintln!("AUTH {} -> {}", m2, trunc(&v.to_string(), 300));
+						}
 						rep.distinct(&("auth", m2, v["error"].is_null()));
 					}
 					None => {
@@ -219,10 +225,10 @@ pub fn run(a: &Args) {
 			// ---------------- unauthenticated requests
 			let (label, body): (String, Vec<u8>) = match choice % 20 {
 				0 | 1 | 2 => ("plaintext-call".into(), inner.to_string().into_bytes()),
-				3 => match cl.old_keys.last() {
+				3 => match cl.old_keys.last().cloned() {
 					Some(ok) => {
 						let n = cl.nonce();
-						("envelope-under-superseded-key".into(), envelope(ok, &inner, n, json!(1)).to_string().into_bytes())
+						("envelope-under-superseded-key".into(), envelope(&ok, &inner, n, json!(1)).to_string().into_bytes())
 					}
 					None => ("plaintext-call".into(), inner.to_string().into_bytes()),
 				},
@@ -292,7 +298,9 @@ pub fn run(a: &Args) {
 					// correct ciphertext, but the envelope's method field says something else
 					let k = key.unwrap_or([0u8; 32]);
 					let n = cl.nonce();
-					let mut e = envelope(&k, &inner, n, json!(1));
+					// (a harmless inner call, so that this don't-care class does not move the state under the other probes)
+					let harmless = json!({"jsonrpc":"2.0","method":"accounts","params":{"token":null},"id":1});
+					let mut e = envelope(&k, &harmless, n, json!(1));
 					e["method"] = json!(m);
 					("plaintext-method-with-valid-ciphertext".into(), e.to_string().into_bytes())
 				}
